@@ -598,7 +598,7 @@ def PM(
     if not isinstance(op_input, optical_signal):
         raise TypeError("`op_input` must be of type (optical_signal).")
 
-    if isinstance(el_input, (float, int)):
+    if isinstance(el_input, (float, int, np.number)):
         el_input = np.ones(op_input.len()) * el_input
     elif isinstance(el_input, electrical_signal):
         el_input = el_input.signal
